@@ -59,6 +59,13 @@ def run(repo):
                  any(isinstance(t, ast.Name) and t.id == name for t in n.targets)]
         itxt = ntext(expand_locals(fi.node, inits[0].value, defs=fdefs)) if inits else ''
         # -(+inf vector) is the -inf vector: count the minus signs
+        if len(inits) == 1 and isinstance(inits[0].value, ast.UnaryOp) and isinstance(inits[0].value.op, ast.USub) \
+                and isinstance(inits[0].value.operand, ast.Name):
+            # lb = -ub: minus the other vector's initial value
+            other = [n for n in ast.walk(mod) if isinstance(n, ast.Assign) and
+                     any(isinstance(t, ast.Name) and t.id == inits[0].value.operand.id for t in n.targets)]
+            if len(other) == 1:
+                itxt = '-(' + ntext(other[0].value) + ')'
         ok_init = len(inits) == 1 and 'inf' in itxt and ((itxt.count('-') % 2 == 1) == (which == 'lb'))
         if inits and len(inits) == 1 and 'inf' not in itxt and not isinstance(inits[0].value, (ast.Call, ast.BinOp, ast.UnaryOp)):
             raise AnalysisError('lp.Model.do_math: initial value of %s (`%s`) not interpreted' % (which, itxt[:40]))
